@@ -318,6 +318,14 @@ func judgeCookie(w *core.W, c *cookieCase) {
 	f.Get("/get", func(ctx flamego.Context) {
 		ran = true
 		got, missing = ctx.Cookie(c.Name), ctx.Cookie("never-set")
+		if m2 := ctx.Cookie(strings.ToUpper(c.Name) + "X"); m2 != "" {
+			missing = m2
+		}
+		if c.Extra && strings.ToUpper(c.Name) != c.Name {
+			if d := ctx.Cookie(strings.ToUpper(c.Name)); d != "decoy" {
+				missing = "decoy cookie read as " + d
+			}
+		}
 	})
 	var pan interface{}
 	spy := &retSpy{h: http.Header{}}
@@ -333,8 +341,18 @@ func judgeCookie(w *core.W, c *cookieCase) {
 	resp := http.Response{Header: spy.h}
 	req := &http.Request{Method: "GET", URL: &url.URL{Path: "/get"}, Header: http.Header{}}
 	sent := 0
+	upper := strings.ToUpper(c.Name)
+	if c.Extra && upper != c.Name {
+		// a different cookie whose name differs only in letter case comes first: names are matched exactly
+		req.AddCookie(&http.Cookie{Name: upper, Value: "decoy"})
+	}
 	for _, ck := range resp.Cookies() {
-		req.AddCookie(&http.Cookie{Name: ck.Name, Value: ck.Value})
+		if len(c.Value)%2 == 1 {
+			// some clients send one Cookie header line per cookie
+			req.Header.Add("Cookie", (&http.Cookie{Name: ck.Name, Value: ck.Value}).String())
+		} else {
+			req.AddCookie(&http.Cookie{Name: ck.Name, Value: ck.Value})
+		}
 		sent++
 	}
 	func() {
